@@ -46,6 +46,9 @@ func gen(t *rapid.T) Case {
 	cfg := pat.GenCfg(t, true)
 	c := Case{Icpt: cfg.IcptName, Variant: rapid.IntRange(0, 11).Draw(t, "variant")}
 	c.Pool = pat.GenPool(t, cfg, rapid.IntRange(3, rig.Up(10)).Draw(t, "npool"))
+	if len(c.Pool) > 26 {
+		c.Pool = c.Pool[:26] // every step probes every live route on two routers: a structure of unusual size is kept in part
+	}
 	objs := []gobj{{}}
 	var handled []string
 	withPrefix := func(acc string) []string {
@@ -144,7 +147,7 @@ func gen(t *rapid.T) Case {
 			}
 			for _, nme := range []string{"x", "x2", "id", "idx", "y", "n", "q"} {
 				if rapid.IntRange(0, 4).Draw(t, "hasParam") > 0 {
-					s.Params[nme] = rapid.SampledFrom([]string{"7", "x", "78", "a/b", ""}).Draw(t, "pval")
+					s.Params[nme] = rapid.SampledFrom([]string{"7", "x", "78", "a/b", "", "{x}", "{id}", "{y}7", "%s", "}{"}).Draw(t, "pval") // incl. values that look like tokens
 				}
 			}
 			c.Steps = append(c.Steps, s)
